@@ -59,8 +59,8 @@ Additional tables (all explicit; what is in no table is Unsupported, the caller 
            local is bound.  A listed draw inside an argument of an effect or of a request (`env.timeout(self.arrival_dist())`)
            is consumed before it
   param_objects [name]    parameters of the generator that hold objects (`send_packet(self, packet)`): bound at entry
-  sees     {effect constructor: [state attrs]}    the constructor additionally carries the CURRENT values of these state
-           fields at the moment of the effect: what the callee could observe of this object while it is being called
+  sees     {effect constructor: [state attr | python expression]}    the constructor additionally carries the CURRENT values
+           of these state fields (or expressions over them, `self.queue_count[packet.flow_id]`) at the moment of the effect: what the callee could observe of this object while it is being called
            (`self.out.put(packet)` while busy = 1 and byte_size already decremented)
   draws    as in translate.py; additionally a listed draw may occur INSIDE the test of an `if`
            (`if not self.loss_rate or random.uniform(0, 1) >= self.loss_rate`): the test is split along and / or / not
@@ -208,7 +208,10 @@ class GenTr(FxTr):
                 env, nodes = self.hoist_holes([binds[n] for n in names], env)     # a draw in an argument comes first
                 args = [self.hole(nd, ty, env) for nd, ty in zip(nodes, tys)]
                 for attr in self.spec.sees.get(con, ()):         # what the callee can see of this object right now
-                    args.append(env["vars"][("self", attr)].term)
+                    if ("self", attr) in env["vars"]:
+                        args.append(env["vars"][("self", attr)].term)
+                    else:                                        # any translatable expression (`self.d[packet.flow_id]`)
+                        args.append(self.expr(_parse_expr(attr), env).term)
                 env2 = self.copy(env)
                 env2["fx"][1].append(con if not args else "(" + " ".join([con] + args) + ")")
                 env2["stale"] |= {p for p in self.volatile if p not in keeps}
